@@ -122,7 +122,9 @@ func (r *R) LogfmtKey(uniq string) string {
 	sb.WriteString(uniq)
 	for i := 0; i < n; i++ {
 		if r.P(15) {
-			sb.WriteString(Pick(r, []string{"\u00e9", "\u65e5", "\U0001f600", "\u00df"}))
+			// letters whose UTF-8 encodings contain bytes that are white space or controls in single-byte charsets
+			// (0x85, 0xA0, 0x9B, 0x80, 0xAD, 0xBF)
+			sb.WriteString(Pick(r, []string{"\u00e9", "\u65e5", "\U0001f600", "\u00df", "\u00e0", "\u00c5", "\u0420", "\u65e0", "\u00c0", "\u015b", "\u00ed", "\u00bf", "\u0105"}))
 		} else {
 			sb.WriteByte(alphabet[r.Intn(len(alphabet))])
 		}
